@@ -48,6 +48,7 @@ struct Reg {
         std::vector<int> vars; for (int i = 0; i < c.dim; i++) vars.push_back(i); if (c.unsteady) vars.push_back(3);
         std::vector<Pt> pts = grid(vars, tier ? 3 : 2, GENERIC_VALS);
         // special points: origin / t = 0 (finite values required)
+        pts.push_back(far_point());
         pts.push_back(Pt(0, 0, 0, 0, true)); pts.push_back(Pt(dy(320), 0, dy(288), 0, true));
         return pts;
       };
